@@ -77,18 +77,45 @@ def run(tier='quick'):
     cols = [c.lower() for c in st.columns]
     sink = strip(vsite.sink)
     tie_args = [strip(a) for a in children(sink)[1:]] if sink.get('kind') == 'CallExpr' else []
-    if len(tie_args) != 3 or len(cols) != 3 or not all(a.get('kind') == 'MemberExpr' for a in tie_args):
+    local_ids = None
+    if len(tie_args) == 3 and len(cols) == 3 and all(a.get('kind') == 'DeclRefExpr' for a in tie_args):
+        # std::tie(x, y, z) into three locals, from which a `semantic_version v{cast(x), cast(y), cast(z)}`
+        # is built: the columns feed the members through the locals
+        local_ids = [(a.get('referencedDecl') or {}).get('id') for a in tie_args]
+        vid = None
+        role = {}
+        for d in walk(f.body):
+            if d.get('kind') != 'VarDecl':
+                continue
+            rec = prog.records.get(program.norm_type_name(d.get('type') or ''))
+            if rec is None or [x.get('name') for x in rec.fields] != ['maj', 'min', 'pat']:
+                continue
+            ini = [x for x in walk(d) if x.get('kind') == 'InitListExpr']
+            if not ini or len(children(ini[0])) != 3:
+                continue
+            refs = []
+            for a in children(ini[0]):
+                ids = [(x.get('referencedDecl') or {}).get('id') for x in walk(a) if x.get('kind') == 'DeclRefExpr']
+                refs.append([i for i in ids if i in local_ids])
+            if all(len(r) == 1 for r in refs):
+                vid = d['id']
+                for fd, r in zip(rec.fields, refs):
+                    role[cols[local_ids.index(r[0])]] = fd.get('name')
+        if vid is None:
+            raise AnalysisBroken('detect_schema: the three fetched locals do not initialise a semantic_version')
+    elif len(tie_args) != 3 or len(cols) != 3 or not all(a.get('kind') == 'MemberExpr' for a in tie_args):
         raise AnalysisBroken('detect_schema: version sink is not std::tie(a.x, a.y, a.z)')
-    var_ids = set()
-    role = {}
-    for c, a in zip(cols, tie_args):
-        b = strip(children(a)[0])
-        vid = (b.get('referencedDecl') or {}).get('id')
-        var_ids.add(vid)
-        role[c] = a.get('name')
-    if len(var_ids) != 1:
-        raise AnalysisBroken('detect_schema: version sink spans several variables')
-    vid = var_ids.pop()
+    else:
+        var_ids = set()
+        role = {}
+        for c, a in zip(cols, tie_args):
+            b = strip(children(a)[0])
+            vid = (b.get('referencedDecl') or {}).get('id')
+            var_ids.add(vid)
+            role[c] = a.get('name')
+        if len(var_ids) != 1:
+            raise AnalysisBroken('detect_schema: version sink spans several variables')
+        vid = var_ids.pop()
     want_role = {'schemaversionmajor': 'maj', 'schemaversionminor': 'min', 'schemaversionpatch': 'pat'}
     for c, m in want_role.items():
         if role.get(c) == m:
@@ -145,6 +172,9 @@ def run(tier='quick'):
         for b in mins:
             for c in pats:
                 env = {('member', vid, 'maj'): a, ('member', vid, 'min'): b, ('member', vid, 'pat'): c}
+                if local_ids is not None:
+                    by_role = {'maj': a, 'min': b, 'pat': c}
+                    env = {lid: by_role[role[cn]] for lid, cn in zip(local_ids, cols)}
                 ev = Evaluator(prog, f, hook)
                 outs = ev.run(env)
                 # outcomes before the version is known: precondition failures
@@ -213,6 +243,8 @@ def run(tier='quick'):
         chk.analysed(f)
     c16.guarded_opens(prog, cg, eff, chk, Y5, roots)
     version_stamp(prog, chk, Y5, supported)
+    Y6 = chk.rule('Y6', 'the stored version triple is fetched into 64-bit integers before it is compared', floor=3)
+    _version_fetch_width(prog, chk, Y6)
     return chk.finish(
         'Finite evaluation of the decision code read from the clang AST: detect_schema is evaluated for '
         'every (major, minor, patch) in a box built from all case labels and their neighbours (%d cells; '
@@ -310,6 +342,48 @@ def _variant(prog, chk, Y2, f):
         chk.violation(Y2, 'get_column_type|shape', locstr(g.node),
                       'get_column_type does not compare column 1 (name) of PRAGMA table_info and return '
                       'column 2 (type)')
+
+
+def _version_fetch_width(prog, chk, Y6):
+    """The version triple decides everything: it must be fetched into 64-bit integers (SQLite INTEGERs
+    are 64 bit).  Fetched into `int`, a stored major of 2^32 + 2 is truncated to 2 and another triple
+    is identified as a supported version."""
+    from .. import sites as _sites
+    from ..domains import _int_width_ok
+    n = 0
+    for f in prog.functions.values():
+        if f.body is None or f.is_pattern or not prog.in_repo(f.file) or '/schema/schema_' in (f.file or ''):
+            continue
+        for st in _sites.find_sites(f):
+            if 'schemaversionmajor' not in st.text.lower() or not st.text.lower().lstrip().startswith('select'):
+                continue
+            if st.sink is None:
+                continue
+            targets = []
+            sk = strip(st.sink, explicit=True)
+            for x in walk(sk):
+                if x.get('kind') == 'CallExpr' and (strip(children(x)[0]).get('referencedDecl') or {}).get('name') == 'tie':
+                    targets = [strip(a, explicit=True) for a in children(x)[1:]]
+                    break
+            if not targets:
+                for x in walk(sk):
+                    if x.get('kind') == 'CXXMethodDecl' and x.get('name') == 'operator()':
+                        targets = [p for p in children(x) if p.get('kind') == 'ParmVarDecl']
+                        break
+            for t in targets[:3]:
+                ty = t.get('type') or ''
+                ok = _int_width_ok(ty)
+                n += 1
+                short = '::'.join((f.qualname or '').split('::')[-2:])
+                inst = '%s fetches a version column into %s' % (short, ty)
+                if ok is False:
+                    chk.violation(Y6, '%s|version column fetched into %s' % (short, ty), locstr(st.node),
+                                  inst + ': a stored value outside the range of that type is truncated, so a triple '
+                                  'that is not a supported version (major 4294967298) is identified as one (2)')
+                else:
+                    chk.ok(Y6, inst, locstr(st.node))
+    if n < 3:
+        chk.fail_broken('Y6: the statement that reads the version triple was not found')
 
 
 def version_stamp(prog, chk, Y5, supported=None):
